@@ -851,6 +851,19 @@ func c15TOC(c *core.Ctx, r *rng.R) *core.Result {
 					log = append(log, "UpdateTOC")
 				}
 			}
+		case k < 96: // save and open: the table of contents and the level it was requested for come back with the document
+			b, err := d.ToBytes()
+			if err != nil {
+				break
+			}
+			d2, oerr := document.OpenFromMemory(io.NopCloser(bytes.NewReader(b)))
+			if oerr != nil || d2 == nil || d2.Body == nil {
+				res.Add("toc/reopen-failed", fmt.Sprintf("own output cannot be reopened: %v", oerr), note())
+				break
+			}
+			d = d2
+			log = append(log, "save+open")
+			res.Count("toc_reopens", 1)
 		default:
 			core.Catch(func() { d.AddTable(&document.TableConfig{Rows: 1, Cols: 2, Width: 4000}) })
 			log = append(log, "Table")
